@@ -187,4 +187,83 @@ MUTATIONS = [
      'desc': 'output VOA left unset in gain mode',
      'edits': [('gnpy/core/network.py', "            voa = 0  # no output voa optimization in gain mode\n        amp.out_voa = voa",
                 "            voa = None  # no output voa optimization in gain mode\n        amp.out_voa = voa")]},
+    {'id': 'c09-offset-floor', 'props': ['C09'], 'tests': 'tests/test_network_functions.py tests/test_parser.py',
+     'desc': 'power rule rounds the offset downwards instead of to the nearest step',
+     'edits': [('gnpy/core/network.py', """        dp = round2float((node_loss - equipment['Span']['default'].span_loss_ref)
+                         * equipment['Span']['default'].power_slope, dp_range[2])""",
+                """        dp = round2float((node_loss - equipment['Span']['default'].span_loss_ref)
+                         * equipment['Span']['default'].power_slope - 0.45 * dp_range[2], dp_range[2])""")]},
+    {'id': 'c09-voa-sign', 'props': ['C09'], 'tests': 'tests/test_network_functions.py tests/test_parser.py',
+     'desc': 'user-set output VOA subtracted from the offset instead of added',
+     'edits': [('gnpy/core/network.py', "        dp = target_power(network, next_node, equipment, deviation_db) + voa",
+                "        dp = target_power(network, next_node, equipment, deviation_db) - voa")]},
+    {'id': 'c09-saturation-per-channel', 'props': ['C09'], 'tests': 'tests/test_network_functions.py tests/test_parser.py',
+     'desc': 'p_max check of a user-chosen model uses the per-channel reference power instead of the total',
+     'edits': [('gnpy/core/network.py', "            power_reduction = min(0, p_max - (pref_total_db + dp))",
+                "            power_reduction = min(0, p_max - (pref_ch_db + dp))")]},
+    {'id': 'c09-prev-voa-sign', 'props': ['C09'], 'tests': 'tests/test_network_functions.py tests/test_parser.py',
+     'desc': 'previous amplifier output VOA subtracted in the gain budget',
+     'edits': [('gnpy/core/network.py', "        gain_target = node_loss + deviation_db + dp - prev_dp + prev_voa + in_voa",
+                "        gain_target = node_loss + deviation_db + dp - prev_dp - prev_voa + in_voa")]},
+    {'id': 'c09-eol-not-in-budget', 'props': ['C09'], 'tests': 'tests/test_network_functions.py',
+     'desc': 'span loss cache taken before the EOL margin is added (EOL missing from gains when EOL != 0)',
+     'edits': [('gnpy/core/network.py', """    add_connector_loss(network, fibers, default_span_data.con_in, default_span_data.con_out, default_span_data.EOL)
+    # don't group split fiber and add amp in the same loop
+    # =>for code clarity (at the expense of speed):
+    add_fiber_padding(network, fibers, default_span_data.padding, equipment)""",
+                """    add_connector_loss(network, fibers, default_span_data.con_in, default_span_data.con_out, 0)
+    # don't group split fiber and add amp in the same loop
+    # =>for code clarity (at the expense of speed):
+    add_fiber_padding(network, fibers, default_span_data.padding, equipment)
+    for fiber in fibers:
+        if not isinstance(get_next_node(fiber, network), elements.Fused):
+            fiber.params.con_out += default_span_data.EOL""")]},
+    {'id': 'c10-select-noisiest', 'props': ['C10'], 'tests': 'tests/test_amplifier.py',
+     'desc': 'selection keeps the noisiest acceptable amplifier when more than three are acceptable',
+     'edits': [('gnpy/core/network.py', "    selected_edfa = min(acceptable_power_list, key=attrgetter('nf'))  # filter on NF",
+                "    selected_edfa = (min if len(acceptable_power_list) <= 3 else max)(acceptable_power_list, key=attrgetter('nf'))")]},
+    {'id': 'c10-roadm-restriction-first', 'props': ['C10'], 'tests': 'tests/test_roadm_restrictions.py',
+     'desc': 'ROADM booster restriction takes precedence over the amplifier own variety list',
+     'edits': [('gnpy/core/network.py', """    if node.variety_list and isinstance(node.variety_list, list):
+        restrictions = node.variety_list
+    elif isinstance(prev_node, elements.Roadm) and prev_node.restrictions['booster_variety_list']:
+        # implementation of restrictions on roadm boosters
+        restrictions = prev_node.restrictions['booster_variety_list']""", """    if isinstance(prev_node, elements.Roadm) and prev_node.restrictions['booster_variety_list']:
+        # implementation of restrictions on roadm boosters
+        restrictions = prev_node.restrictions['booster_variety_list']
+    elif node.variety_list and isinstance(node.variety_list, list):
+        restrictions = node.variety_list""")]},
+    {'id': 'c10-band-lower-edge-only', 'props': ['C10'], 'tests': 'tests/test_network_functions.py',
+     'desc': 'band coverage only tests the lower edge of the design band',
+     'edits': [('gnpy/core/network.py', "                     if (a.type_def != 'multi_band' and a.f_min <= band['f_min'] and a.f_max >= band['f_max'])",
+                "                     if (a.type_def != 'multi_band' and a.f_min <= band['f_min'])")]},
+    {'id': 'c10-min-gain-allowance', 'props': ['C10'], 'tests': 'tests/test_amplifier.py',
+     'desc': 'minimum gain allowance 5 dB instead of 3 dB',
+     'edits': [('gnpy/core/network.py', "        gain_min=gain_target + 3 - edfa.gain_min,", "        gain_min=gain_target + 5 - edfa.gain_min,")]},
+    {'id': 'c10-raman-always-after-fibre', 'props': ['C10'], 'tests': 'tests/test_amplifier.py',
+     'desc': 'Raman models allowed after any fibre regardless of its loss coefficient',
+     'edits': [('gnpy/core/network.py', "        raman_allowed = (prev_node.params.loss_coef < max_fiber_lineic_loss_for_raman).all()",
+                "        raman_allowed = True")]},
+    {'id': 'c10-power-ignores-pmax', 'props': ['C10'], 'tests': 'tests/test_amplifier.py',
+     'desc': 'capability of non-Raman models ignores p_max when the required gain is below 12 dB',
+     'edits': [('gnpy/core/network.py', """        power=min(pin + edfa.gain_flatmax + target_extended_gain, edfa.p_max) - power_target,
+        gain_min=gain_target + 3 - edfa.gain_min,""", """        power=min(pin + edfa.gain_flatmax + target_extended_gain, edfa.p_max if gain_target > 12 else 99) - power_target,
+        gain_min=gain_target + 3 - edfa.gain_min,""")]},
+    {'id': 'c11-loose-fallback-hops', 'props': ['C11'], 'tests': 'tests/test_path_computation_functions.py tests/test_disjunction.py',
+     'desc': 'fallback path for unsatisfiable LOOSE constraints minimises the hop count instead of the fibre length',
+     'edits': [('gnpy/topology/request.py', "            total_path = dijkstra_path(network, source, destination, weight='weight')",
+                "            total_path = dijkstra_path(network, source, destination, weight=None)")]},
+    {'id': 'c11-ispart-ignores-order', 'props': ['C11'], 'tests': 'tests/test_path_computation_functions.py tests/test_disjunction.py',
+     'desc': 'include check only tests membership, not order',
+     'edits': [('gnpy/topology/request.py', """            if pthb.index(elem) >= j:
+                j = pthb.index(elem)
+            else:
+                return False""", """            j = pthb.index(elem)""")]},
+    {'id': 'c11-strict-relaxed', 'props': ['C11'], 'tests': 'tests/test_path_computation_functions.py tests/test_disjunction.py',
+     'desc': 'a STRICT entry is only honoured when it is the first entry of the list',
+     'edits': [('gnpy/topology/request.py', "        if 'STRICT' not in req.loose_list[:-1]:", "        if 'STRICT' not in req.loose_list[:1]:")]},
+    {'id': 'c11-edge-weight-inline', 'props': ['C11'], 'tests': 'tests/test_network_functions.py tests/test_parser.py',
+     'desc': 'the edge from a fibre to its auto-inserted inline amplifier carries the nominal weight instead of the length',
+     'edits': [('gnpy/core/network.py', "        network.add_edge(fiber, amp, weight=fiber.params.length)",
+                "        network.add_edge(fiber, amp, weight=0.01)")]},
 ]
